@@ -511,3 +511,95 @@ def run(repo: Repo, rep: Report, tier: str) -> None:
     rep.floor("C14-R13", "attribute stores on non-self objects in the analyzer", n13, 5)
     if not any(o.rule == "C14-R13" and o.status == "violated" for o in rep.obs):
         rep.ok("C14-R13", "no inferred type is mutated in place", f"{n13} attribute stores on non-self objects, none on a type value", an13.loc())
+
+    # ---------------- R14 --------------------------------------------------------------
+    rep.rule("C14-R14", "an explicit signal name is not discarded unvalidated: wherever the front end (transformer, analyzer) takes a signal literal apart (`X.value` read on an arm "
+             "that established `isinstance(X, SignalLiteral)`), that arm either established that X names no signal (`X.signal_type is None`), or reads `X.signal_type` itself "
+             "(keeps or validates it), or hands X to the type inference before — otherwise `(\"signal-W\", 5)` or an unknown name written inside a larger literal or under a "
+             "projection is accepted")
+    n14 = 0
+    for f14 in repo.all_funcs():
+        if not (".parsing." in f14.module.name + "." or ".semantic." in f14.module.name + "."):
+            continue
+        for iff in [n for n in walk_local(f14.node) if isinstance(n, ast.If)]:
+            conj = list(iff.test.values) if isinstance(iff.test, ast.BoolOp) and isinstance(iff.test.op, ast.And) else [iff.test]
+            subj = [c.args[0].id for c in conj if isinstance(c, ast.Call) and call_name(c) == "isinstance" and len(c.args) == 2 and isinstance(c.args[0], ast.Name)
+                    and norm(c.args[1]) == "SignalLiteral"]
+            if not subj:
+                continue
+            x = subj[0]
+            reads = [n for st in iff.body for n in ast.walk(st) if isinstance(n, ast.Attribute) and n.attr == "value" and isinstance(n.value, ast.Name) and n.value.id == x]
+            if not reads:
+                continue
+            n14 += 1
+            none_est = any(norm(c) in (f"{x}.signal_type is None", f"not {x}.signal_type") for c in conj)
+            type_reads = [n for st in iff.body for n in ast.walk(st) if isinstance(n, ast.Attribute) and n.attr == "signal_type" and isinstance(n.value, ast.Name) and n.value.id == x]
+            pm14 = parents_map(f14.node)
+            kept = [n for n in type_reads if not (isinstance(pm14.get(n), ast.Compare) and isinstance(pm14[n].ops[0], (ast.Is, ast.IsNot)))
+                    and not isinstance(pm14.get(n), ast.UnaryOp) and not (isinstance(pm14.get(n), ast.If))]
+            first_read_line = min(r.lineno for r in reads)
+            inferred = [c for st in iff.body for c in ast.walk(st) if isinstance(c, ast.Call) and call_name(c) in ("get_expr_type", "infer_expr_type", "visit")
+                        and c.args and isinstance(c.args[0], ast.Name) and c.args[0].id == x and c.lineno < first_read_line]
+            # the inference call may sit under `if X.signal_type is not None:` (nothing to validate otherwise), and under nothing else
+            def _only_type_guard(c):
+                cur = c
+                while cur is not iff:
+                    par = pm14[cur]
+                    if isinstance(par, ast.If) and par is not iff:
+                        if norm(par.test) not in (f"{x}.signal_type is not None", f"{x}.signal_type") or not any(cur is b or any(cur is y for y in ast.walk(b)) for b in par.body):
+                            return False
+                    cur = par
+                return True
+            inferred = [c for c in inferred if _only_type_guard(c)]
+            ok14 = none_est or bool(kept) or bool(inferred)
+            how = "arm established that no signal is named" if none_est else "the name is read on the arm" if kept else "the literal is inferred (validated) first" if inferred else ""
+            rep.check(ok14, "C14-R14", f"{f14.short}: a literal taken apart keeps or validates its signal name", how if ok14 else
+                      f"`{x}.value` is used and `{x}.signal_type` is dropped without validation: a reserved or unknown name inside is accepted", f14.loc(reads[0]))
+    rep.floor("C14-R14", "arms taking a signal literal apart", n14, 3)
+
+    # ---------------- R15 --------------------------------------------------------------
+    rep.rule("C14-R15", "a second write to one cell is refused wherever it comes from: the analyzer meets each write() once, a loop body or a function called twice lowers it again for "
+             "the same cell — the lowering of a write tests the cell's id against the ids already written (error when present) and records it, before either kind of write "
+             "is built")
+    lw15 = repo.func("MemoryLowerer.lower_write_expr")
+    from .util import canon as _canon15, cguards as _cg15
+    c15 = _canon15(lw15)
+    adds15 = [c for c in calls_in(lw15.node, "add") if c.args and "memory_refs[" in c15.text(c.args[0])]
+    errs15 = []
+    for c in calls_in(lw15.node, "_error"):
+        gs = _cg15(lw15, c)
+        if any(pol and re.fullmatch(r"self\.parent\.memory_refs\[.+\] in self\.\w+", g) for g, pol in gs):
+            errs15.append(c)
+    rets15 = [r for r in walk_local(lw15.node) if isinstance(r, ast.Return) and r.value is not None and "_write(" in norm(r.value)]
+    if not rets15:
+        raise AnalysisError("C14-R15: lower_write_expr has no dispatching return")
+    g15 = CFG(lw15.node)
+    pm15 = parents_map(lw15.node)
+    def _st15(n):
+        while not isinstance(n, ast.stmt):
+            n = pm15[n]
+        return n
+    same_table = bool(adds15) and bool(errs15) and any(norm(a.func.value) in " ".join(g for g, _ in _cg15(lw15, e)) for a in adds15 for e in errs15)
+    dom15 = same_table and all(g15.dominates(_st15(adds15[0]), r) for r in rets15)
+    rep.check(bool(dom15), "C14-R15", "lower_write_expr: the written-cell table is tested and extended before a write is built",
+              "membership error + record dominate both dispatches" if dom15 else
+              "no test of the cell id against the cells already written: `for i in 0..2 { m.write(i); }` and a writing function called twice are accepted", lw15.loc())
+
+    # ---------------- R16 --------------------------------------------------------------
+    rep.rule("C14-R16", "a selection is accepted only for a member or for a bundle whose members are unknown until run time: in _infer_bundle_select_type every return that types "
+             "the result with the selected name sits under the bare membership test or under the bare test for the dynamic bundle class — any wider escape (an empty member "
+             "set, say) accepts `{}[\"iron-plate\"]`")
+    bs16 = repo.func("SemanticAnalyzer._infer_bundle_select_type")
+    c16 = _canon15(bs16)
+    n16 = 0
+    for r in [r for r in walk_local(bs16.node) if isinstance(r, ast.Return) and r.value is not None]:
+        if "make_signal_type_info(" not in c16.text(r.value):
+            continue
+        n16 += 1
+        gs = _cg15(bs16, r)
+        member = any(pol and re.fullmatch(r"expr\.signal_type in .+\.signal_types", g) for g, pol in gs)
+        dynamic = any(pol and re.fullmatch(r"isinstance\([^()]*(\([^()]*\))?[^()]*, DynamicBundleValue\)", g) for g, pol in gs)
+        ok16 = member or dynamic
+        rep.check(ok16, "C14-R16", f"_infer_bundle_select_type: accepting return #{n16} is a member or a run-time bundle", ("member" if member else "dynamic bundle") if ok16 else
+                  f"accepted under {[('' if p else 'not ') + g[:70] for g, p in gs]}", bs16.loc(r))
+    rep.floor("C14-R16", "accepting returns of the bundle selection", n16, 2)
